@@ -9,12 +9,16 @@
 package main
 
 import (
+	"bytes"
 	"context"
+	"encoding/json"
 	"errors"
 	"fmt"
 	"os"
+	"os/exec"
 	"sort"
 	"strings"
+	"sync"
 	"time"
 
 	"github.com/luraproject/lura/v2/config"
@@ -232,45 +236,84 @@ func schedule(outs []outcome, pi []int) (before, cancels, after []int) {
 
 const watchdog = 120 * time.Second
 
-// runMerge returns what the proxy returned and the arrival order that was imposed.
-func runMerge(via int, outs []outcome, pi []int) (mergeOut, []int) {
-	n := len(outs)
-	deadlineMode := false
-	for _, o := range outs {
-		if o.kind == kCancel && o.deadline {
-			deadlineMode = true
+// A scenario travels with the request context, so that ONE proxy instance can serve many
+// different scenarios (one after the other, or concurrently).
+type scenario struct {
+	outs  []outcome
+	gates []chan struct{} // nil: ungated (the stubs answer at once)
+}
+
+type scenarioKey struct{}
+
+func stub(i int) proxy.Proxy {
+	return func(ctx context.Context, _ *proxy.Request) (*proxy.Response, error) {
+		sc := ctx.Value(scenarioKey{}).(*scenario)
+		o := sc.outs[i]
+		if o.kind == kCancel {
+			<-ctx.Done()
+			return nil, ctx.Err()
 		}
+		if sc.gates != nil {
+			<-sc.gates[i]
+		}
+		switch o.kind {
+		case kPayload:
+			return &proxy.Response{Data: copyMap(o.data), IsComplete: o.complete}, nil
+		case kErr:
+			return nil, tagErr{o.tag}
+		}
+		return nil, nil
 	}
+}
+
+// one merging proxy for n backends
+type instance struct {
+	via, n   int
+	deadline bool
+	p        proxy.Proxy
+}
+
+func newInstance(via, n int, deadline bool) *instance {
 	timeout := time.Hour
-	if deadlineMode {
+	if deadline {
 		timeout = 30 * time.Millisecond
 	}
-	ep := endpoint(n, timeout)
-	gates := make([]chan struct{}, n)
 	next := make([]proxy.Proxy, n)
-	for i := 0; i < n; i++ {
-		i := i
-		o := outs[i]
-		gates[i] = make(chan struct{})
-		next[i] = func(ctx context.Context, _ *proxy.Request) (*proxy.Response, error) {
-			switch o.kind {
-			case kCancel:
-				<-ctx.Done()
-				return nil, ctx.Err()
-			case kPayload:
-				<-gates[i]
-				return &proxy.Response{Data: copyMap(o.data), IsComplete: o.complete}, nil
-			case kErr:
-				<-gates[i]
-				return nil, tagErr{o.tag}
-			}
-			<-gates[i]
-			return nil, nil
+	for i := range next {
+		next[i] = stub(i)
+	}
+	return &instance{via: via, n: n, deadline: deadline, p: buildProxy(via, endpoint(n, timeout), next)}
+}
+
+func hasDeadline(outs []outcome) bool {
+	for _, o := range outs {
+		if o.kind == kCancel && o.deadline {
+			return true
 		}
 	}
-	p := buildProxy(via, ep, next)
+	return false
+}
+
+func newRequest() *proxy.Request {
+	return &proxy.Request{Method: "GET", Params: map[string]string{}, Headers: map[string][]string{}, Query: map[string][]string{}}
+}
+
+// runMerge builds a fresh proxy and runs one scenario through it.
+func runMerge(via int, outs []outcome, pi []int) (mergeOut, []int) {
+	return newInstance(via, len(outs), hasDeadline(outs)).run(outs, pi)
+}
+
+// run returns what the proxy returned and the arrival order that was imposed.
+func (in *instance) run(outs []outcome, pi []int) (mergeOut, []int) {
+	n := len(outs)
+	deadlineMode := in.deadline
+	gates := make([]chan struct{}, n)
+	for i := range gates {
+		gates[i] = make(chan struct{})
+	}
+	p := in.p
 	deq = make(chan struct{}, 4*n+8)
-	parent, cancel := context.WithCancel(context.Background())
+	parent, cancel := context.WithCancel(context.WithValue(context.Background(), scenarioKey{}, &scenario{outs: outs, gates: gates}))
 	done := make(chan mergeOut, 1)
 	go func() {
 		defer func() {
@@ -278,7 +321,7 @@ func runMerge(via int, outs []outcome, pi []int) (mergeOut, []int) {
 				done <- mergeOut{panicked: fmt.Sprint(x)}
 			}
 		}()
-		r, e := p(parent, &proxy.Request{Method: "GET", Params: map[string]string{}, Headers: map[string][]string{}, Query: map[string][]string{}})
+		r, e := p(parent, newRequest())
 		done <- mergeOut{r: r, e: e}
 	}()
 	released := make([]bool, n)
@@ -405,6 +448,12 @@ func (g *gen) mergeCase(stream string, via int, outs []outcome, pi []int) bool {
 		g.seen[key] = true
 	}
 	res, order := runMerge(via, outs, pi)
+	g.record(stream, via, outs, order, res, nil)
+	return true
+}
+
+// record emits one observed run of a merging proxy as a case.
+func (g *gen) record(stream string, via int, outs []outcome, order []int, res mergeOut, extra map[string]interface{}) {
 	oc, oj := obsResult(res.r, res.e, res.panicked)
 	var ol []string
 	var ojs []interface{}
@@ -425,6 +474,9 @@ func (g *gen) mergeCase(stream string, via int, outs []outcome, pi []int) bool {
 	term := emit.App("CMerge", emit.Nat(via), emit.List(ol), emit.NatList(order), oc)
 	js := map[string]interface{}{"level": "merge", "stream": stream, "via": []string{"NewMergeDataMiddleware", "DefaultFactory"}[via],
 		"backends": ojs, "imposed_arrival_order": order, "observed": oj}
+	for k, v := range extra {
+		js[k] = v
+	}
 	g.w.Count("level:merge")
 	g.w.Count("stream:" + stream)
 	g.w.Count(fmt.Sprintf("backends:%d", len(outs)))
@@ -441,7 +493,260 @@ func (g *gen) mergeCase(stream string, via int, outs []outcome, pi []int) bool {
 		}
 	}
 	g.w.Add(term, js, "", fmt.Sprintf("M|%d|%s|%s", via, canonOuts(outs), intsStr(order)), nontrivial(outs))
-	return true
+}
+
+// ---- instance reuse ----------------------------------------------------------------------
+
+// sequence drives several different scenarios, one after the other, through ONE proxy
+// instance (arrival orders imposed as usual); every step is an ordinary case.
+func (g *gen) sequence(stream string, via int, steps [][]outcome, orders [][]int) {
+	in := newInstance(via, len(steps[0]), false)
+	for k, outs := range steps {
+		res, order := in.run(outs, orders[k])
+		g.record(stream, via, outs, order, res, map[string]interface{}{"reuse": "sequential", "step": k, "of": len(steps)})
+	}
+}
+
+// canonical form of an observation, insensitive to what the schedule may change
+func canonObs(res mergeOut) string {
+	if res.panicked != "" {
+		return "panic:" + res.panicked
+	}
+	var b strings.Builder
+	if res.r == nil {
+		b.WriteString("nil|")
+	} else {
+		d, _ := json.Marshal(res.r.Data)
+		fmt.Fprintf(&b, "%v|%s|", res.r.IsComplete, d)
+	}
+	_, ej := obsErr(res.e)
+	var es []string
+	if l, ok := ej.([]interface{}); ok {
+		for _, e := range l {
+			es = append(es, fmt.Sprint(e))
+		}
+		sort.Strings(es)
+		b.WriteString("errs:" + strings.Join(es, ","))
+	} else {
+		fmt.Fprintf(&b, "err:%v", ej)
+	}
+	return b.String()
+}
+
+// The concurrent batch hits ONE proxy instance from several goroutines with a small set of
+// distinct scenarios (ungated stubs, disjoint fields inside a scenario so that the
+// observation does not depend on the arrival order).  Every distinct (scenario,
+// observation) pair is emitted once: without interference, one case per scenario.
+// It runs in a child process of the generator, because what shared state typically causes
+// under concurrency ("fatal error: concurrent map writes") cannot be recovered from and
+// would take the cases of every other stream down with it.
+type concLine struct {
+	J        int                    `json:"j"`
+	Nil      bool                   `json:"nil"`
+	Complete bool                   `json:"complete"`
+	DataNil  bool                   `json:"data_nil"`
+	Data     map[string]interface{} `json:"data"`
+	ErrNil   bool                   `json:"err_nil"`
+	NoMethod string                 `json:"no_errors_method"`
+	Errs     []string               `json:"errs"`
+	Panic    string                 `json:"panic"`
+}
+
+func concInputs(n int) [][]outcome {
+	P := func(complete bool, d map[string]interface{}) outcome {
+		return outcome{kind: kPayload, complete: complete, data: d}
+	}
+	var inputs [][]outcome
+	for j := 0; j < 10; j++ {
+		outs := make([]outcome, n)
+		for i := range outs {
+			key := fmt.Sprintf("s%dk%d", j, i)
+			switch (j + i*(j%3+1)) % 5 {
+			case 0, 1:
+				outs[i] = P(true, map[string]interface{}{key: j*10 + i})
+			case 2:
+				outs[i] = P(false, map[string]interface{}{key: j*10 + i, key + "x": "v"})
+			case 3:
+				outs[i] = outcome{kind: kErr, tag: fmt.Sprintf("e%d-%d", j, i)}
+			default:
+				outs[i] = outcome{kind: kEmpty}
+			}
+		}
+		switch j {
+		case 0: // everything complete
+			for i := range outs {
+				outs[i] = P(true, map[string]interface{}{fmt.Sprintf("s0k%d", i): i})
+			}
+		case 1: // nobody answers, one of them cancelled (no payload next to it)
+			for i := range outs {
+				outs[i] = outcome{kind: kErr, tag: fmt.Sprintf("e1-%d", i)}
+			}
+			outs[0] = outcome{kind: kCancel}
+		case 2:
+			outs[0] = P(true, nil)
+		}
+		inputs = append(inputs, outs)
+	}
+	return inputs
+}
+
+// child side: run the batch, print one JSON line per distinct (scenario, observation)
+func concurrentChild(via, n, goroutines, calls int) {
+	proxy.SetVerifOnDequeue(nil)
+	inputs := concInputs(n)
+	in := newInstance(via, n, false)
+	per := make([]map[string]concLine, goroutines)
+	start := make(chan struct{})
+	var wg sync.WaitGroup
+	for w := 0; w < goroutines; w++ {
+		per[w] = map[string]concLine{}
+		wg.Add(1)
+		go func(w int) {
+			defer wg.Done()
+			<-start
+			for k := 0; k < calls; k++ {
+				j := (w*5 + k) % len(inputs)
+				outs := inputs[j]
+				ctx, cancel := context.WithCancel(context.WithValue(context.Background(), scenarioKey{}, &scenario{outs: outs}))
+				for _, o := range outs {
+					if o.kind == kCancel {
+						cancel() // only used next to outcomes that do not depend on timing
+					}
+				}
+				var res mergeOut
+				func() {
+					defer func() {
+						if x := recover(); x != nil {
+							res = mergeOut{panicked: fmt.Sprint(x)}
+						}
+					}()
+					r, e := in.p(ctx, newRequest())
+					res = mergeOut{r: r, e: e}
+				}()
+				cancel()
+				key := fmt.Sprintf("%03d|%s", j, canonObs(res))
+				if _, ok := per[w][key]; !ok {
+					l := concLine{J: j, Nil: res.r == nil, ErrNil: res.e == nil, Panic: res.panicked}
+					if res.r != nil {
+						l.Complete, l.DataNil, l.Data = res.r.IsComplete, res.r.Data == nil, copyMap(res.r.Data)
+					}
+					if res.e != nil {
+						if me, ok := res.e.(merr); ok {
+							for _, e := range me.Errors() {
+								_, js := ekind(e)
+								l.Errs = append(l.Errs, js)
+							}
+						} else {
+							l.NoMethod = res.e.Error()
+						}
+					}
+					per[w][key] = l
+				}
+			}
+		}(w)
+	}
+	close(start)
+	wg.Wait()
+	all := map[string]concLine{}
+	for w := 0; w < goroutines; w++ {
+		for k, v := range per[w] {
+			if _, ok := all[k]; !ok {
+				all[k] = v
+			}
+		}
+	}
+	keys := make([]string, 0, len(all))
+	for k := range all {
+		keys = append(keys, k)
+	}
+	sort.Strings(keys)
+	enc := json.NewEncoder(os.Stdout)
+	for _, k := range keys {
+		enc.Encode(all[k])
+	}
+}
+
+type rebuiltErr struct{ es []error }
+
+func (r rebuiltErr) Error() string   { return "merge error (rebuilt from the child's report)" }
+func (r rebuiltErr) Errors() []error { return r.es }
+
+func (l concLine) mergeOut() mergeOut {
+	if l.Panic != "" {
+		return mergeOut{panicked: l.Panic}
+	}
+	var res mergeOut
+	if !l.Nil {
+		res.r = &proxy.Response{IsComplete: l.Complete}
+		if !l.DataNil {
+			res.r.Data = l.Data
+			if res.r.Data == nil {
+				res.r.Data = map[string]interface{}{}
+			}
+		}
+	}
+	switch {
+	case l.ErrNil:
+	case l.NoMethod != "":
+		res.e = errors.New(l.NoMethod)
+	default:
+		re := rebuiltErr{es: []error{}}
+		for _, k := range l.Errs {
+			switch {
+			case strings.HasPrefix(k, "backend:"):
+				re.es = append(re.es, tagErr{strings.TrimPrefix(k, "backend:")})
+			case k == "null-result":
+				re.es = append(re.es, proxy.VerifErrNullResult)
+			case k == "canceled":
+				re.es = append(re.es, context.Canceled)
+			case k == "deadline":
+				re.es = append(re.es, context.DeadlineExceeded)
+			case k == "<nil entry>":
+				re.es = append(re.es, nil)
+			default:
+				re.es = append(re.es, errors.New(strings.TrimPrefix(k, "other:")))
+			}
+		}
+		res.e = re
+	}
+	return res
+}
+
+// parent side
+func (g *gen) concurrentBatch(cfg out.Config, via, n, goroutines, calls int) {
+	inputs := concInputs(n)
+	extra := map[string]interface{}{"reuse": "concurrent", "goroutines": goroutines, "calls_each": calls,
+		"note": "arrival order not imposed (identity recorded); the compared projection does not depend on it"}
+	cmd := exec.Command(os.Args[0], "--out", cfg.Dir, "--tier", cfg.Tier, "--seed", fmt.Sprint(cfg.Seed),
+		"--extra", fmt.Sprintf("conc-child:%d:%d:%d:%d", via, n, goroutines, calls))
+	var stdout, stderr bytes.Buffer
+	cmd.Stdout, cmd.Stderr = &stdout, &stderr
+	if err := cmd.Run(); err != nil {
+		// the batch did not survive: a concrete failing case naming the crash
+		msg := strings.TrimSpace(stderr.String())
+		if i := strings.IndexByte(msg, '\n'); i >= 0 {
+			msg = msg[:i]
+		}
+		if len(msg) > 200 {
+			msg = msg[:200]
+		}
+		extra["crash"] = stderr.String()[:min(len(stderr.String()), 3000)]
+		g.record("reuse-concurrent", via, inputs[0], identity(n),
+			mergeOut{panicked: fmt.Sprintf("concurrent batch on one proxy instance crashed (%v): %s", err, msg)}, extra)
+		return
+	}
+	d := json.NewDecoder(&stdout)
+	d.UseNumber()
+	for {
+		var l concLine
+		if err := d.Decode(&l); err != nil {
+			break
+		}
+		if l.J < 0 || l.J >= len(inputs) {
+			continue
+		}
+		g.record("reuse-concurrent", via, inputs[l.J], identity(n), l.mergeOut(), extra)
+	}
 }
 
 func perms(n int) [][]int {
@@ -686,6 +991,12 @@ func (g *gen) combineCase(total int, parts []*outcome) {
 
 func main() {
 	cfg := out.ParseFlags("C01")
+	if strings.HasPrefix(cfg.Extra, "conc-child:") {
+		var via, n, goroutines, calls int
+		fmt.Sscanf(cfg.Extra, "conc-child:%d:%d:%d:%d", &via, &n, &goroutines, &calls)
+		concurrentChild(via, n, goroutines, calls)
+		return
+	}
 	r := rng.New(cfg.Seed)
 	w := out.NewWriter(cfg, "Verif.Corr.C01", 400)
 	g := &gen{w: w}
@@ -741,6 +1052,71 @@ func main() {
 	for _, c := range corpus {
 		for via := 0; via < 2; via++ {
 			g.mergeCase("corpus", via, c.outs, c.pi)
+		}
+	}
+
+	// 1b. instance reuse, sequential: ONE proxy serves a sequence of different scenarios;
+	// consecutive steps differ in exactly what the property speaks of (fields, completeness,
+	// error entries, nil response), so anything kept from an earlier request shows
+	C := outcome{kind: kCancel}
+	N := outcome{kind: kEmpty}
+	telling := [][][]outcome{
+		{ // complete -> incomplete with an error -> nobody answers -> complete with other fields
+			{P(true, obj("a", 1)), P(true, obj("b", 2))},
+			{P(true, obj("c", 3)), E("x")},
+			{E("y"), N},
+			{P(true, obj("d", 4)), P(true, obj("e", 5))},
+			{P(false, obj("f", 6)), P(true, obj("g", 7))},
+			{P(true, obj("h", 8)), P(true, obj("i", 9))},
+		},
+		{ // failure first, then clean answers
+			{E("x"), C},
+			{P(true, obj("a", 1)), P(true, obj("a", 2))},
+			{P(true, nil), P(true, obj("b", 1))},
+			{P(true, obj("c", 1)), P(true, obj("d", 2))},
+		},
+		{
+			{P(true, obj("a", 1)), P(true, obj("b", 2)), P(true, obj("c", 3))},
+			{P(true, obj("d", 1)), C, E("x")},
+			{N, N, N},
+			{P(true, obj("e", 1)), P(true, obj("f", 2)), P(true, obj("g", 3))},
+			{P(true, obj("e", 4)), P(false, obj("f", 5)), P(true, nil)},
+			{P(true, obj("h", 1)), P(true, obj("i", 2)), P(true, obj("j", 3))},
+		},
+	}
+	for _, steps := range telling {
+		n := len(steps[0])
+		for via := 0; via < 2; via++ {
+			for _, pi := range [][]int{identity(n), perms(n)[len(perms(n))-1]} {
+				orders := make([][]int, len(steps))
+				for k := range orders {
+					orders[k] = pi
+				}
+				g.sequence("reuse-sequential-corpus", via, steps, orders)
+			}
+		}
+	}
+	nSeq, concCalls := 40, 40
+	if cfg.Thorough() {
+		nSeq, concCalls = 400, 400
+	}
+	for c := 0; c < nSeq; c++ {
+		n := 2 + r.Intn(4)
+		steps := make([][]outcome, 3+r.Intn(4))
+		orders := make([][]int, len(steps))
+		for k := range steps {
+			steps[k] = make([]outcome, n)
+			for i := range steps[k] {
+				steps[k][i] = randOutcome(r, i, true)
+			}
+			orders[k] = r.Perm(n)
+		}
+		g.sequence("reuse-sequential-random", r.Intn(2), steps, orders)
+	}
+	// 1c. instance reuse, concurrent: the same proxy hit from 12 goroutines (child process)
+	for _, n := range []int{2, 3, 4} {
+		for via := 0; via < 2; via++ {
+			g.concurrentBatch(cfg, via, n, 12, concCalls)
 		}
 	}
 
@@ -841,6 +1217,6 @@ func main() {
 	}
 
 	w.Meta["imposed_orders"] = "arrival order imposed through proxy.SetVerifOnDequeue (site merge) and per-backend gates; cancelled backends deliver when the harness cancels the parent context"
-	w.Close(fmt.Sprintf("corpus of order-sensitive scenarios (both constructions); every vector of %d outcome kinds (6 for 4 backends) x every arrival order for 2..%d backends (orders that collapse because cancelled backends deliver together are run once; n=2 also through DefaultFactory); %d random scenarios with 2..8 backends, overlapping fields, nested values; %d deadline scenarios; %d accumulator call sequences (2..12 calls, total = number of calls) and %d combineData(2, [a, b]) calls; nontrivial = some backend is not a complete non-null payload or two payloads share a field",
+	w.Close(fmt.Sprintf("corpus of order-sensitive scenarios (both constructions); instance reuse: one proxy serving sequences of 3-6 different scenarios (telling corpus + random) and 10 scenarios from 12 goroutines at once (each distinct (scenario, observation) pair once); every vector of %d outcome kinds (6 for 4 backends) x every arrival order for 2..%d backends (orders that collapse because cancelled backends deliver together are run once; n=2 also through DefaultFactory); %d random scenarios with 2..8 backends, overlapping fields, nested values; %d deadline scenarios; %d accumulator call sequences (2..12 calls, total = number of calls) and %d combineData(2, [a, b]) calls; nontrivial = some backend is not a complete non-null payload or two payloads share a field",
 		smallKinds, maxN, nRandom, nDeadline, nAcc, nComb), true)
 }
